@@ -218,6 +218,87 @@ def ob_text(layout, cols, budget_s=60):
     return symx.explore(run, budget_s=budget_s)
 
 
+# ---------------------------------------------------------------- layout family: white space by solver-guided case split
+LAY_PREFIX = ["", "{e}", "  {e}{e}"]                 # before the first row of every player section
+LAY_ROWPRE = ["", "  "]                              # before every second row
+LAY_ROWSUF = ["", " "]                               # after every row
+LAY_MSEP = ["{e},{e}", ",", "{e}{e},  {e}", " ,{e}"]  # between measures
+LAY_PSEP = ["{e}&{e}", "&", "&{e}", "{e}{e}&"]        # between player sections
+LAY_SUFFIX = ["", "{e}", " {e}{e}", " "]             # after the very last row of the text
+LAY_LAST = ["zero", "plain", "keysound"]             # the very last cell of the text
+LAY_EOL = ["\n", "\r\n"]
+
+
+def _layout_text(sel, ks_text):
+    """(text, expected cells) for one selection of white-space decorations; 2 player sections x 2 measures (2 and 3 rows) x 2
+    columns; `sel` = indices into the LAY_* lists; ks_text = rendering of the keysound index of the keysounded cells"""
+    e = LAY_EOL[sel["eol"]]
+    f = lambda t: t.replace("{e}", e)
+    exp, secs = [], []
+    chars = ["1", "M", "2", "3"]
+    first = True
+    for p in range(2):
+        ms = []
+        for m, rows in enumerate((2, 3)):
+            lines = []
+            for r in range(rows):
+                line = ""
+                for c in range(2):
+                    last = (p == 1 and m == 1 and r == rows - 1 and c == 1)
+                    nz = ((r + c + m + p) % 3 == 0)
+                    if last:
+                        nz = LAY_LAST[sel["last"]] != "zero"
+                    ch = chars[(r + 2 * c + m + p) % 4] if nz else "0"
+                    line += ch
+                    if nz:
+                        k = None
+                        if first or (last and LAY_LAST[sel["last"]] == "keysound"):
+                            line += "[" + ks_text + "]"; k = True; first = False
+                        exp.append((p, Fraction(4 * m) + Fraction(4 * r, rows), c, ch, k))
+                lines.append((LAY_ROWPRE[sel["rowpre"]] if r % 2 else "") + line + LAY_ROWSUF[sel["rowsuf"]])
+            ms.append(e.join(lines))
+        secs.append(f(LAY_PREFIX[sel["prefix"]]) + f(LAY_MSEP[sel["msep"]]).join(ms))
+    text = f(LAY_PSEP[sel["psep"]]).join(secs)
+    # the very last row must not carry the row suffix when the text suffix is empty and the case asks for a tight end
+    if sel["suffix"] == 0 and LAY_ROWSUF[sel["rowsuf"]]:
+        text = text[: -len(LAY_ROWSUF[sel["rowsuf"]])]
+    return text + f(LAY_SUFFIX[sel["suffix"]]), exp
+
+
+def ob_layout(eol, last, budget_s=200):
+    """whole-text decoding where every white-space decoration (section prefix, row prefix/suffix, measure separator, player
+    separator, text suffix) is a solver-guided case split: all 3*2*2*4*4*4 = 768 combinations per (eol, last cell) are explored"""
+    import z3
+    symx, mods = _setup()
+    N = mods["simfile.notes"]
+
+    def run():
+        ksv = z3.Int("ks"); symx.CTL.assume(ksv >= 0)
+        sel = dict(eol=eol, last=last)
+        for nm, lst in (("prefix", LAY_PREFIX), ("rowpre", LAY_ROWPRE), ("rowsuf", LAY_ROWSUF), ("msep", LAY_MSEP), ("psep", LAY_PSEP), ("suffix", LAY_SUFFIX)):
+            sel[nm] = symx.choose("lay_" + nm, len(lst))
+        text, exp = _layout_text(sel, str(symx.SymInt(ksv)))
+        nd = N.NoteData(text)
+        out = list(nd)
+        if nd.columns != 2:
+            return False, ("columns", nd.columns)
+        if str(nd) != text:
+            return False, ("str changed",)
+        if len(out) != len(exp):
+            return False, ("count", len(out), len(exp))
+        conds = []
+        for note, (p, beat, c, ch, k) in zip(out, exp):
+            if note.player != p or note.column != c or note.note_type is not N.NoteType(ch) or (note.keysound_index is None) != (k is None):
+                return False, ("cell", p, str(beat), c)
+            conds.append(symx.bterm(note.beat == symx.FracShim(beat)))
+            if k is not None:
+                conds.append(symx.term_of(note.keysound_index) == ksv)
+        for a, b in zip(out, out[1:]):
+            conds.append(symx.bterm(a < b))
+        return z3.And(*conds) if conds else True, ("layout",)
+    return symx.explore(run, budget_s=budget_s)
+
+
 def obligations(tier):
     obs = []
     for o in OPS:
@@ -232,6 +313,11 @@ def obligations(tier):
     for l in range(len(LAYOUTS)):
         for cols in ((4,) if tier == "quick" else (1, 4, 8)):
             obs.append(dict(name=f"text layout={LAYOUTS[l][0]} cols={cols}", func="ob_text", args=(l, cols), budget_s=120, bounds="concrete layout, symbolic keysound digits"))
+    for e in range(len(LAY_EOL)):
+        for la in range(len(LAY_LAST)):
+            obs.append(dict(name=f"layout eol={'CRLF' if e else 'LF'} last-cell={LAY_LAST[la]}", func="ob_layout", args=(e, la), budget_s=300,
+                            bounds="2 player sections x 2 measures (2 and 3 rows) x 2 columns; every white-space decoration class (section prefix, row prefix/suffix, "
+                                   "measure separator, player separator, text suffix incl. none at all) by solver-guided case split: 768 layouts per obligation; keysound digits symbolic"))
     return obs
 
 
@@ -322,6 +408,18 @@ def replay(data):
         bad = out != exp or nd.columns != cols or str(nd) != text or any(not (x < y) for x, y in zip(out, out[1:]))
         first_bad = next(((x, y) for x, y in zip(out, exp) if x != y), None)
         return bad, f"decoding layout {name} with {cols} columns and keysound {ks}: first differing note (got, expected) = {first_bad}; counts {len(out)}/{len(exp)}"
+    if data["func"] == "ob_layout":
+        e, la = a
+        sel = dict(eol=e, last=la)
+        for nm in ("prefix", "rowpre", "rowsuf", "msep", "psep", "suffix"):
+            sel[nm] = int(g("lay_" + nm))
+        ks = int(g("ks"))
+        text, exp0 = _layout_text(sel, str(ks))
+        exp = [Note(beat=Beat(b), column=c, note_type=NoteType(ch), player=p_, keysound_index=(ks if k else None)) for (p_, b, c, ch, k) in exp0]
+        nd = NoteData(text)
+        out = list(nd)
+        bad = out != exp or nd.columns != 2 or str(nd) != text or any(not (x < y) for x, y in zip(out, out[1:]))
+        return bad, f"decoding {text!r}: got {len(out)} notes, expected {len(exp)}; first differing (got, expected) = {next(((x, y) for x, y in zip(out, exp) if x != y), None)}"
     return False, "unknown obligation"
 
 
